@@ -736,7 +736,14 @@ func (v Value) data() []Value {
 
 func (v Value) getIndex(vm *VM, idx int) Value {
 	if t, ok := v.value.(*structT); ok {
-		return t.GetIndex(idx)
+		if f, ok := t.Fields.Get(idx); ok {
+			return f
+		}
+		// the receiver keeps the declared type of the reference the method was
+		// reached through, so that nil assigned to it inside the method is a
+		// nil of that type
+		raw, _ := t.Methods.Get(idx)
+		return newMethod(v, raw.getFunc())
 	}
 	if v.value == nil && v.t.base() == TypeStruct {
 		// a method can be called on a nil struct reference: it is found
